@@ -205,6 +205,24 @@ pub fn encode(cfg: &Cfg, src: VecSource, mode: &Mode) -> Outcome {
     }
 }
 
+/// Encodes with the configuration exactly as given (no override of `multithread`/`workers`).
+pub fn encode_raw(cfg: &Cfg, src: VecSource) -> Outcome {
+    let bs = cfg.block_size;
+    let enc = cfg.to_encoder();
+    let r = catch_unwind(AssertUnwindSafe(|| -> Result<Stream, EncodeError> {
+        let verified = enc.into_verified().map_err(|(_, e)| EncodeError::Config(e))?;
+        flacenc::encode_with_fixed_block_size(&verified, src, bs)
+    }));
+    match r {
+        Ok(Ok(s)) => Outcome::Ok(s),
+        Ok(Err(e)) => {
+            let (k, m) = err_kind(&e);
+            Outcome::Err(k, m)
+        }
+        Err(p) => Outcome::Panic(panic_message(p)),
+    }
+}
+
 pub fn stream_bytes(s: &Stream) -> Result<Vec<u8>, String> {
     let r = catch_unwind(AssertUnwindSafe(|| {
         let mut sink = ByteSink::new();
